@@ -81,8 +81,13 @@ type Goal struct {
 	Goal    Term
 	Expect  string // "unsat" normally, "sat" for cover
 	Clause  *Clause
-	Inputs  []string // names of input constants worth reporting from a model
+	Inputs  []goalInput // replay inputs (name, term) reported from a model
 	PathTag string
+}
+
+type goalInput struct {
+	Name string
+	T    Term
 }
 
 type State struct {
@@ -197,6 +202,8 @@ type Exec struct {
 	cellCount int
 	inlineClosures bool
 	allocHook func(st *State, fc *FnCtx, in ssa.Instruction, n Term, elem types.Type)
+	findings  map[string][]Finding
+	curEnv    *SpecEnv
 }
 
 func (ex *Exec) arrComp(h *HeapView, elem types.Type) Term {
